@@ -37,7 +37,7 @@ ASSUMPTIONS = [
     'a killed process leaves stray staging files behind; only the destination path is judged',
 ]
 REQUIRED_COUNTERS = ['cases', 'faults_fired', 'destinations_inspected',
-                     'successes_compared']
+                     'successes_compared', 'size_limited_runs']
 EXHAUSTIVE = {'quick': True, 'thorough': True}
 PLAN = {
     'quick': {'workers': 16, 'budget_s': 60, 'sampled_per_worker': 0,
@@ -149,6 +149,12 @@ def enumerated(tier):
   for writer, dest, nph in variants[:nv]:
     for pos in range(0, 30):
       yield {'w': writer, 'n': nph, 'dest': dest, 'fault': ['kill', pos]}
+  # the file system cuts writes short (file size limit of the process; the same
+  # as a full disk or a quota): the writer runs in a child with RLIMIT_FSIZE
+  for writer in ('pickle', 'json', 'atomic_write', 'atomic_write_nosync'):
+    for dest in ('old', 'absent'):
+      for limit in (1, 64, 1000, 4096, 8192, 20000, 10 ** 7):
+        yield {'w': writer, 'n': 1, 'dest': dest, 'fault': ['fsize', limit]}
 
 
 def sampled(tier, rng):
@@ -619,6 +625,11 @@ def wait_gate():
   sys.stdout.write('READY %d\n' % os.getpid()); sys.stdout.flush()
   while not os.path.exists(gate):
     time.sleep(0.002)
+  if os.environ.get('VF_FSIZE'):
+    import resource, signal
+    signal.signal(signal.SIGXFSZ, signal.SIG_IGN)   # writes fail with EFBIG instead
+    n = int(os.environ['VF_FSIZE'])
+    resource.setrlimit(resource.RLIMIT_FSIZE, (n, n))
 if writer.startswith('atomic_write'):
   from openhtf.util import atomic_write as aw
   wait_gate()
@@ -816,7 +827,68 @@ def run_kill(case):
           'violations': viol, 'counters': c}
 
 
+def run_fsize(case):
+  """The writer runs in a child whose file size limit is below (or above) the
+  size of what it publishes: writes beyond the limit fail or are cut short by
+  the operating system."""
+  from vf import harness
+  viol = []
+  c = {'cases': 1, 'faults_fired': 0, 'destinations_inspected': 0,
+       'successes_compared': 0, 'kill_points': 0, 'size_limited_runs': 1}
+  work = tempfile.mkdtemp(dir=_S['root'])
+  os.mkdir(os.path.join(work, 'stage'))
+  dest = os.path.join(work, 'record.out')
+  gate = os.path.join(work, 'go')
+  if case['dest'] == 'old':
+    with open(dest, 'wb') as f:
+      f.write(OLD)
+  with open(gate, 'w'):
+    pass
+  code = CHILD.replace('sys.argv_saved', repr((case['w'], dest, '1', gate)))
+  script = os.path.join(work, 'child.py')
+  with open(script, 'w') as f:
+    f.write(code)
+  env = dict(harness.worker_env(), VF_FSIZE=str(case['fault'][1]))
+  try:
+    p = subprocess.run([sys.executable, script], env=env, capture_output=True,
+                       text=True, timeout=60)
+    finished = 'DONE' in p.stdout
+    c['destinations_inspected'] = 1
+
+    def new_ok(content):
+      if case['w'].startswith('atomic_write'):
+        return content == ''.join('line %d of the new content\n' % i
+                                  for i in range(5)).encode()
+      try:
+        if case['w'] == 'json':
+          d = json.loads(content.decode())
+          return d['dut_id'] == 'NEWDUT' and len(d['phases']) == 1 \
+              and d['outcome'] == 'PASS'
+        import pickle
+        rec = pickle.loads(content)
+        return rec.dut_id == 'NEWDUT'
+      except Exception:  # pylint: disable=broad-except
+        return False
+
+    verdict, detail = classify_dest(dest, case['dest'], None, new_ok)
+    if verdict == 'new':
+      c['successes_compared'] = 1
+    else:
+      c['faults_fired'] = 1
+    ctx = {'writer': case['w'], 'file_size_limit': case['fault'][1],
+           'dest_before': case['dest'], 'writer_reported_success': finished,
+           'stderr_tail': (p.stderr or '')[-200:]}
+    if verdict == 'bad':
+      viol.append({'mechanism': 'truncated-or-partial-record-at-destination:short-write',
+                   'detail': dict(ctx, found=detail)})
+  finally:
+    shutil.rmtree(work, ignore_errors=True)
+  return {'sig': case, 'violations': viol, 'counters': c}
+
+
 def run_case(case):
+  if case['fault'][0] == 'fsize':
+    return run_fsize(case)
   if case['fault'][0] == 'two_writers':
     return run_two_writers(case)
   if case['fault'][0] == 'kill':
